@@ -73,6 +73,9 @@ class YieldProxy:
             rec.add('acc', o=name, m=attr, tid=tid,
                     a=tuple(x for x in a[:2] if isinstance(x, (str, int))))
             r = v(*a, **kw)
+            if attr == 'pre_disconnect':
+                rec.add('acc_done', o=name, m=attr, tid=tid,
+                        a=tuple(x for x in a[:2] if isinstance(x, str)))
             if attr in ('is_connected', 'can_disconnect'):
                 rec.add('acc_ret', o=name, m=attr, tid=tid, r=bool(r),
                         a=tuple(x for x in a[:2] if isinstance(x, str)))
@@ -173,7 +176,8 @@ def _run(case, cfg, w):
     k.trace_files = None
     srv.manager = real_manager
     # ---------------------------------------------------------------- oracle
-    acc = [e for e in w.rec.events if e['kind'] in ('acc', 'acc_ret')]
+    acc = [e for e in w.rec.events
+           if e['kind'] in ('acc', 'acc_ret', 'acc_done')]
     window = any_check_then_mark(acc, sids) == 'check_then_mark_window'
 
     def add(clause, detail, qual=''):
@@ -241,34 +245,58 @@ def _run(case, cfg, w):
 
 def check_then_mark_pattern(acc, sid, ns):
     """The known window: two threads both got `is_connected(sid) -> True`
-    (directly or via can_disconnect), and for each of them the very next
-    manager / engine.io access after that check is `pre_disconnect(sid)` -
-    i.e. the check is immediately followed by the mark, as in the shipped
-    code, and the second thread slipped in between.  If a thread does
-    anything else between its check and its mark (a send, another lookup) the
-    window is a different, wider one and is not the known finding."""
+    (directly or via can_disconnect); for each of them the very next manager
+    / engine.io access after that check is `pre_disconnect(sid)` (the check
+    is immediately followed by the mark, as in the shipped code); and the
+    later thread's check call had started before the earlier thread's
+    `pre_disconnect` returned - it slipped in between check and mark.  A
+    check that succeeds although an earlier thread's mark had already been
+    placed, or a thread doing anything else between its check and its mark,
+    is a different, wider window and is not the known finding."""
     if sid is None:
         return 'other'
-    ok_threads = set()
+    ok = []           # (tid, seq of the check call, seq of its mark's return)
     for i, e in enumerate(acc):
         if e['kind'] == 'acc_ret' and e['m'] in ('is_connected',
                                                  'can_disconnect') \
                 and e['a'][:1] == (sid,) and e['r']:
             tid = e['tid']
+            # the call that produced this result
+            start = None
+            for f in reversed(acc[:i]):
+                if f['kind'] == 'acc' and f['tid'] == tid and \
+                        f['m'] == e['m']:
+                    start = f['seq']
+                    break
             nxt = None
             for f in acc[i + 1:]:
                 if f['kind'] == 'acc' and f['tid'] == tid:
-                    if f['m'] in ('is_connected',) and e['m'] == \
-                            'can_disconnect':
-                        continue      # can_disconnect calls is_connected
+                    if f['m'] == 'is_connected' and \
+                            e['m'] == 'can_disconnect':
+                        continue
                     nxt = f
                     break
-            if nxt is not None and nxt['m'] == 'pre_disconnect' and \
-                    nxt['a'][:1] == (sid,):
-                ok_threads.add(tid)
-            elif nxt is not None:
+            if nxt is None:
+                continue
+            if nxt['m'] != 'pre_disconnect' or nxt['a'][:1] != (sid,):
                 return 'other'
-    return 'check_then_mark_window' if len(ok_threads) >= 2 else 'other'
+            done = None
+            for f in acc:
+                if f['kind'] == 'acc_done' and f['tid'] == tid and \
+                        f['seq'] > nxt['seq']:
+                    done = f['seq']
+                    break
+            ok.append((tid, start if start is not None else e['seq'],
+                       done if done is not None else 10 ** 12))
+    tids = {x[0] for x in ok}
+    if len(tids) < 2:
+        return 'other'
+    ok.sort(key=lambda x: x[1])
+    first_done = min(x[2] for x in ok)
+    for tid, start, done in ok:
+        if start > first_done:
+            return 'other'      # checked after a mark had been placed
+    return 'check_then_mark_window'
 
 
 def any_check_then_mark(acc, sids):
